@@ -335,7 +335,7 @@ func (m *Manager) AddPublicIP(ip net.IP) error {
 
 	// Add to hairpin detection map if enabled
 	if m.hairpinIPs != nil && m.config.EnableHairpin {
-		ipKey := ipToKey(ip4)
+		ipKey := ipToMapKey(ip4)
 		val := uint8(1)
 		if err := m.hairpinIPs.Put(&ipKey, &val); err != nil {
 			m.logger.Warn("Failed to add hairpin IP", zap.Error(err))
@@ -467,7 +467,7 @@ func (m *Manager) AllocateNAT(privateIP net.IP) (*Allocation, error) {
 	if m.subscriberNAT != nil {
 		subNAT := SubscriberNAT{
 			Block: PortBlock{
-				PublicIP:      ipToKey(selectedPool.PublicIP),
+				PublicIP:      ipToMapKey(selectedPool.PublicIP),
 				PortStart:     portStart,
 				PortEnd:       portEnd,
 				NextPort:      uint32(portStart),
@@ -482,7 +482,8 @@ func (m *Manager) AllocateNAT(privateIP net.IP) (*Allocation, error) {
 			BytesOut:       0,
 			BytesIn:        0,
 		}
-		if err := m.subscriberNAT.Put(&privKey, &subNAT); err != nil {
+		mapKey := ipToMapKey(ip4)
+		if err := m.subscriberNAT.Put(&mapKey, &subNAT); err != nil {
 			return nil, fmt.Errorf("failed to update eBPF map: %w", err)
 		}
 	}
@@ -530,7 +531,8 @@ func (m *Manager) DeallocateNAT(privateIP net.IP) error {
 
 	// Remove from eBPF map
 	if m.subscriberNAT != nil {
-		if err := m.subscriberNAT.Delete(&privKey); err != nil {
+		mapKey := ipToMapKey(ip4)
+		if err := m.subscriberNAT.Delete(&mapKey); err != nil {
 			m.logger.Warn("Failed to delete subscriber NAT entry", zap.Error(err))
 		}
 	}
@@ -787,7 +789,7 @@ func (m *Manager) GetEIMMapping(internalIP net.IP, internalPort uint16, protocol
 	}
 
 	key := EIMKey{
-		InternalIP:   ipToKey(internalIP.To4()),
+		InternalIP:   ipToMapKey(internalIP.To4()),
 		InternalPort: internalPort,
 		Protocol:     protocol,
 	}
@@ -817,8 +819,8 @@ func (m *Manager) LookupSession(srcIP, dstIP net.IP, srcPort, dstPort uint16, pr
 	}
 
 	key := natKey{
-		SrcIP:    ipToKey(srcIP.To4()),
-		DstIP:    ipToKey(dstIP.To4()),
+		SrcIP:    ipToMapKey(srcIP.To4()),
+		DstIP:    ipToMapKey(dstIP.To4()),
 		SrcPort:  srcPort,
 		DstPort:  dstPort,
 		Protocol: protocol,
@@ -841,6 +843,15 @@ func (m *Manager) SetLogger(logger *Logger) {
 func ipToKey(ip net.IP) uint32 {
 	ip4 := ip.To4()
 	return binary.BigEndian.Uint32(ip4)
+}
+
+// ipToMapKey converts an IPv4 address to the uint32 stored in eBPF map keys and values.
+// The kernel programs take these fields straight from (and write them straight into) IP
+// headers, i.e. they hold the address bytes in network order in memory; ipToKey yields the
+// address as a big-endian number, whose bytes are reversed when marshalled on a
+// little-endian host.
+func ipToMapKey(ip net.IP) uint32 {
+	return binary.NativeEndian.Uint32(ip.To4())
 }
 
 // keyToIP converts a uint32 key to an IPv4 address
